@@ -465,7 +465,7 @@ impl Driver for C19 {
         }
     }
     fn rule(&self) -> String {
-        "G-data programs (12 construct families, helper constants of every kind added to the where section) with one identifier or number token replaced by a value of another kind: string, boolean, array, nested array, graph, node list, edge list, array element, row, decimal, large integer, zero, negative, len/enumerate/zip calls with right and wrong arity or argument kinds, unknown function, undeclared identifier / compound name, neighbour query for a missing node, set functions and range() with wrong argument kinds, negated Booleans, a compound name whose only namesake is an escaped literal variable; one program in six is left unperturbed; two cases per unit are hand-written destructuring programs (a component after a discarded `_` used as a value of its own kind - must pass - or of a neighbouring component's kind - must be rejected). Position classes: operand, array index, name index, range bound, iterator, argument, domain bound, where-value. Each text that parses is type-checked (PreModel::create_type_checker) and transformed (PreModel::transform); if the check accepts and the transform fails, the base error is classified: wrong argument type/count, operator not applicable to its operand kinds, unspreadable value, unknown function, statically undeclared variable are type-class; out of range, too large, duplicate declaration, overflow / division by zero on numeric operands, tuple length, missing graph node are data-dependent. non-trivial = accepted program (transformed or failed data-dependently)".into()
+        "G-data programs (12 construct families, helper constants of every kind added to the where section) with one identifier or number token replaced by a value of another kind: string, boolean, array, nested array, graph, node list, edge list, array element, row, decimal, large integer, zero, negative, len/enumerate/zip calls with right and wrong arity or argument kinds, unknown function, undeclared identifier / compound name, neighbour query for a missing node, set functions and range() with wrong argument kinds, negated Booleans, a compound name whose only namesake is an escaped literal variable; one program in six is left unperturbed; two cases per unit are hand-written destructuring programs (a component after a discarded `_` used as a value of its own kind - must pass - or of a neighbouring component's kind - must be rejected). Position classes: operand, array index, name index, range bound, iterator, argument, domain bound, where-value. Each text that parses is type-checked (PreModel::create_type_checker) and transformed (PreModel::transform); if the check accepts and the transform fails, the base error is classified: wrong argument type/count, operator not applicable to its operand kinds, unspreadable value, unknown function, statically undeclared variable are type-class; out of range, too large, duplicate declaration, overflow / division by zero on numeric operands, tuple length, missing graph node are data-dependent. non-trivial = accepted program (transformed or failed data-dependently) Replacements include blocks and scoped blocks of constants; fixed templates cover tuple destructuring with discards and constraint names indexed by an edge / tuple / array row (ill-typed) or a number / node / string (well-typed).".into()
     }
     fn thresholds(&self, tier: Tier) -> Thresholds {
         let s = tier.pick(10, 100);
